@@ -12,6 +12,17 @@ def _bits_lit(bits):
     return "[" + ", ".join("true" if x else "false" for x in bits) + "]"
 
 
+def _chunked(name, ty, rows, per=16):
+    """big list literal split into several definitions (elaborator recursion depth)"""
+    s, parts = "", []
+    for k in range(0, len(rows), per):
+        pn = "%s_%d" % (name, k // per)
+        parts.append(pn)
+        s += "def %s : %s := [\n" % (pn, ty) + ",\n".join("  " + r for r in rows[k:k + per]) + "]\n"
+    s += "def %s : %s :=\n  " % (name, ty) + " ++ ".join(parts) + "\n\n"
+    return s
+
+
 def huff_state_paths(enc, dec):
     """certificate for the Lean proof: for every state of the 4-bit decoding
     automaton the bit path (from the root of the code tree) it stands for.
@@ -106,11 +117,10 @@ int main(void){
         rows.append("  " + ", ".join("(%d, %d)" % e for e in enc[i:i + 8]))
     s += ",\n".join(rows) + "]\n\n"
     s += "/-- huff-tables.h: decode_tables[256][16] (state, flags, sym) -/\n"
-    s += "def hpackHuffDec : List (List (Nat × Nat × Nat)) := [\n"
-    s += ",\n".join("  [" + ", ".join("(%d, %d, %d)" % e for e in row) + "]" for row in dec) + "]\n\n"
+    s += _chunked("hpackHuffDec", "List (List (Nat × Nat × Nat))",
+                  ["[" + ", ".join("(%d, %d, %d)" % e for e in row) + "]" for row in dec])
     s += "/-- certificate (computed by the extractor, checked in Lean): bit path of every\n"
     s += "    state of the 4-bit automaton from the root of the code tree -/\n"
-    s += "def hpackHuffStatePath : List (List Bool) := [\n"
-    s += ",\n".join("  " + _bits_lit(p) for p in paths) + "]\n"
+    s += _chunked("hpackHuffStatePath", "List (List Bool)", [_bits_lit(p) for p in paths])
     s += "\nend LtVerif.Extracted\n"
     return s
